@@ -105,8 +105,38 @@ func contains(xs []string, x string) bool {
 	return false
 }
 
-// discharge solves all pending obligations in parallel.
+// discharge solves all pending obligations: a first stage with the fast E-matching configurations and a short
+// timeout, a second stage with every configuration for what is left, and a final sequential retry (few workers,
+// long timeout) so that machine load cannot turn a provable obligation into "undecided".
 func discharge(obls []*Obligation, dir string, secs, workers int) {
+	stage1 := []string{"z3-new-ematch", "z3-new-ematch-a2", "cvc5-ematch"}
+	s1 := secs / 4
+	if s1 < 3 {
+		s1 = 3
+	}
+	dischargeStage(obls, dir, s1, workers, stage1)
+	reset := func() int {
+		n := 0
+		for _, o := range obls {
+			if o.Kind == "cover" || (havePriority(obls) && !o.priority) {
+				continue
+			}
+			if o.Status == "undecided" && o.Solver != "trivial" && !strings.HasPrefix(o.Model, "contract cannot") && !strings.HasPrefix(o.Model, "function outside") {
+				o.Status = ""
+				n++
+			}
+		}
+		return n
+	}
+	if reset() > 0 {
+		dischargeStage(obls, dir, secs, workers, nil)
+	}
+	if reset() > 0 {
+		dischargeStage(obls, dir, secs*3, 2, nil)
+	}
+}
+
+func dischargeStage(obls []*Obligation, dir string, secs, workers int, use []string) {
 	os.MkdirAll(dir, 0o755)
 	var wg sync.WaitGroup
 	sem := make(chan struct{}, workers)
@@ -128,7 +158,7 @@ func discharge(obls []*Obligation, dir string, secs, workers int) {
 			}
 			txt = "; " + o.Name + "\n" + txt
 			os.WriteFile(file, []byte(txt), 0o644)
-			r := solveOne(file, secs, nil)
+			r := solveOne(file, secs, use)
 			o.Solver, o.Ms = r.solver, r.ms
 			if o.Kind == "vacuity" || o.Kind == "cover" {
 				// reachability guard: sat is the good answer
@@ -182,4 +212,13 @@ func getModel(file, solver string, secs int) string {
 		return string(out)
 	}
 	return ""
+}
+
+func havePriority(obls []*Obligation) bool {
+	for _, o := range obls {
+		if o.priority {
+			return true
+		}
+	}
+	return false
 }
